@@ -69,6 +69,12 @@ claim("C07",
       STATIC_NOTE + "Handler runs under one mutex (C17); rounds are deterministic functions of stored messages and local randomness. Not decided: outcome equality across interleavings.",
       "DESIGN.md §4 C07")
 
+claim("C11",
+      "may-depend analysis with object-level, order-aware effects on SSA (dep.go): must-depend queries from the published nonce commitments / the BIP-340 nonce back to secret share, session hash, message, randomness or counter, public key",
+      "Decides for every pair of signing contexts the structural cause of nonce separation: the published FROST commitments and the BIP-340 nonce are functions of the secret, the session context, the message and fresh randomness (or the atomic counter) - a source with no dependency path, written into an unread hasher, or written after the digest is reported. For a dependency property this IS the property up to the PRF assumption, hence the right level.",
+      STATIC_NOTE + "Effect summaries for blake3/rand/io/binary/atomic in dep.go. Not decided: PRF security of the keyed hash.",
+      "DESIGN.md §4 C11")
+
 for p, why in {
     "C01": "not built yet", "C02": "not built yet", "C03": "not built yet", "C04": "not built yet", "C05": "not built yet",
     "C06": "not built yet", "C07": "not built yet", "C08": "not built yet", "C09": "not built yet", "C10": "not built yet",
